@@ -33,6 +33,8 @@
 (*                             (after DATA / RSET / EHLO, or a refused    *)
 (*                             MAIL following one of them)                *)
 (*  PermitHeldAtSessionEnd     permits in use after the session ended     *)
+(*  PermitOverReturned         the session returned a permit it had not   *)
+(*                             taken (another holder's release refused)   *)
 (*  CommittedWithoutBody       Commit succeeded on a target that was never *)
 (*                             handed the body in this transaction (a     *)
 (*                             transaction refused before the commit step *)
@@ -153,6 +155,11 @@ ObsEnd(o0, open, all, ip, src) ==
   LET o  == Settle(o0)
       o1 == V(o, \A t \in AllTargets : open[t] = 0, "DeliveryOpenAtSessionEnd")
   IN V(o1, all = o.base /\ ip = o.base /\ src = o.base, "PermitHeldAtSessionEnd")
+
+\* held: what happened when the other session of cfg.hold gave its own permits back after the
+\* session under test had ended ("none": there is no such session; "ok"; "panic": the limiter refused
+\* the release as mismatched, i.e. the session under test had returned a permit it never took)
+ObsHeld(o, held) == V(o, held # "panic", "PermitOverReturned")
 
 \* an event of the environment at the limits group (Session!EnvStep): another session takes /
 \* returns one permit of every scope; time passing and other keys coming and going change nothing
